@@ -6,6 +6,10 @@ postcondition is generated from the format-string literal, `fmt::Formatter` beco
 What is proved with the real bodies: the *arguments* handed to these primitives yield exactly the strings
 of the property statements (`canonical`, `display_body`).
 """
+import re
+
+import vgen
+import rsx
 from vgen import Unit, Contract as C, Loop
 import core_kernel
 import common
@@ -190,41 +194,237 @@ def display_contract():
              'lemma_display_shape(c__, f__, p__, m__); lemma_display_plain(c__, f__, m__);')
 
 
-def pre_member(params, expr):
-    """The quantifier domain of a method of an R7 stand-in trait (Verus: no `requires` on trait impls)."""
-    return '    open spec fn r7_pre(%s) -> bool { %s }\n' % (params, expr)
+R7_TRAITS = {'Debug': 'R7Debug', 'Display': 'R7Display', 'From': 'R7From'}
+R7_POSTS = 2
+
+
+class FmtUnit(Unit):
+    """The three impls are impls of the stand-in traits R7Debug / R7Display / R7From (spec/std_format.rs),
+    whose contract is carried by the ghost members r7_pre / r7_post<i> (same mechanism as vgen uses for the
+    crate's own traits, but with `&mut` parameters split into their value before / after the call)."""
+
+    def __init__(self, *a, **k):
+        Unit.__init__(self, *a, **k)
+        self.crate_traits |= set(R7_TRAITS)
+
+    def _ghost_defs(self, ch, c, mode):
+        text = vgen.rewrite_body(vgen.strip_attrs_and_comments(ch.text))
+        sig, _ = rsx.fn_parts(text)
+        ps = vgen.parse_sig(sig)
+        plist = []
+        subst = []
+        for nm, ty, slf in ps['params']:
+            if slf:
+                plist.append(slf)
+            elif ty.startswith('&mut '):
+                t = ty[len('&mut '):].strip()
+                plist += ['%s__before: %s' % (nm, t), '%s__after: %s' % (nm, t)]
+                subst += [(r'old\(%s\)' % nm, nm + '__before'), (r'final\(%s\)' % nm, nm + '__after')]
+            else:
+                plist.append('%s: %s' % (nm, ty))
+        pre = list(c.pre) + ([x for (_, x) in c.ok] if c.ok is not None and mode == 'F' else [])
+        post = ([x for (_, x) in c.ok] if c.ok is not None and mode != 'F' else []) + [x for (_, x) in c.post]
+        if len(post) > R7_POSTS:
+            raise AnchorLost('more than %d post clauses on an R7 trait method' % R7_POSTS)
+        # the precondition is over the non-&mut parameters only (an expression naming one does not resolve)
+        pre_params = [p for p in plist if '__before: ' not in p and '__after: ' not in p]
+        out = '    open spec fn r7_pre(%s) -> bool { %s }\n' % (', '.join(pre_params), vgen._conj(pre))
+        ret = ps['ret'] or '()'
+        for i in range(R7_POSTS):
+            e = post[i] if i < len(post) else 'true'
+            for a, b in subst:
+                e = re.sub(a, b, e)
+            if re.search(r'\b(old|final)\(', e):
+                raise AnchorLost('R7 trait post clause: old()/final() of something that is not a &mut parameter')
+            out += '    open spec fn r7_post%d(%s) -> bool { %s }\n' % (
+                i, ', '.join(plist + ['%s: %s' % (c.ret, ret)]), e)
+        return out
+
+    def generate(self, sources, mode):
+        text, linemap, meta = Unit.generate(self, sources, mode)
+        # name the trait-level `ensures` lines so that a failing clause is reported by its contract name
+        for n, line in enumerate(text.split('\n'), 1):
+            m = re.search(r'// @(post\d+) (R7\w+)\s*$', line)
+            if m:
+                linemap[n] = ('ens', 'trait ' + m.group(2), m.group(1))
+        return text, linemap, meta
 
 
 def build():
-    u = Unit('format', specs=['base.rs', 'rounding.rs', 'decimal.rs', 'strings.rs', 'std_format.rs'])
+    u = FmtUnit('format', specs=['base.rs', 'rounding.rs', 'decimal.rs', 'strings.rs', 'std_format.rs'],
+                uses=['use core::cmp::min;'])   # format.rs: `use core::cmp::{min, Ordering}`
     u.raw(lambda mode: r7fmt.reset(), 'R7-reset')
     core_kernel.add_core_items(u)
     common.add_decimal(u, consts=False)
     common.add_accessors(u)
     u.raw(SPEC, 'format-spec')
-    sf, db, dp = string_from_contract(), debug_contract(), display_contract()
-    u.impl('fpdec', 'format::impl From<Decimal> for String', {'from': sf}, spec_impl='',
-           extra=pre_member('d: Decimal', ' && '.join(sf.pre)))
-    u.impl('fpdec', 'format::impl fmt::Debug for Decimal', {'fmt': db}, extra=pre_member('&self', ' && '.join(db.pre)))
-    u.impl('fpdec', 'format::impl fmt::Display for Decimal', {'fmt': dp}, extra=pre_member('&self', ' && '.join(dp.pre)))
+    u.impl('fpdec', 'format::impl From<Decimal> for String', {'from': string_from_contract()}, spec_impl='')
+    u.impl('fpdec', 'format::impl fmt::Debug for Decimal', {'fmt': debug_contract()})
+    u.impl('fpdec', 'format::impl fmt::Display for Decimal', {'fmt': display_contract()})
     # the stubs for the format literals met while rewriting the three impls (must come after them)
     u.raw(lambda mode: r7fmt.stubs_text(), 'R7-stubs')
     return u
 
 
+ROUNDTRIP = '''
+// ---- C07 round trip: the canonical string read by the C06 literal grammar (spec/parse.rs) gives back (c, f).
+// Pure mathematics (no code of /repo involved); the parser's own contract (units/parser.py) states that
+// `Decimal::from_str` computes parse_decimal_spec of the string's bytes.
+
+/// the bytes of a string of ASCII characters (for these, UTF-8 is one byte per character, the code point)
+pub open spec fn ascii_bytes(s: Seq<char>) -> Seq<u8> { Seq::new(s.len(), |i: int| s[i] as u8) }
+
+pub proof fn lemma_ascii_digits(s: Seq<char>)
+    requires all_digit_chars(s)
+    ensures all_digits(ascii_bytes(s)), digits_value(ascii_bytes(s)) == dec_value(s)
+    decreases s.len()
+{
+    let b = ascii_bytes(s);
+    assert forall|i: int| 0 <= i < b.len() implies is_digit(#[trigger] b[i]) by { assert(is_digit_char(s[i])); }
+    if s.len() > 0 {
+        let t = s.drop_last();
+        assert forall|i: int| 0 <= i < t.len() implies is_digit_char(#[trigger] t[i]) by { assert(t[i] == s[i]); }
+        lemma_ascii_digits(t);
+        assert(b.drop_last() =~= ascii_bytes(t));
+        assert(is_digit_char(s[s.len() - 1]));
+        assert(digit_val(b.last()) == digit_char_val(s.last()));
+    }
+}
+
+/// k digits followed by a non-digit or the end: the digit run is exactly k
+pub proof fn lemma_digit_run_exact(s: Seq<u8>, k: int)
+    requires 0 <= k <= s.len(), all_digits(s.take(k)), k < s.len() ==> !is_digit(s[k])
+    ensures digit_run(s) == k
+{
+    lemma_digit_run_split(s, k);
+    if k < s.len() { assert(s.skip(k)[0] == s[k]); }
+}
+
+pub proof fn lemma_round_trip(c: int, f: nat)
+    requires -max_coeff() <= c <= max_coeff(), f <= 18
+    ensures parse_decimal_spec(ascii_bytes(canonical(c, f))) == Some((c, f as int))
+{
+    lemma_canonical_is_literal(c, f);
+    let m = abs_int(c) as nat;
+    let ip = digits((m as int / pow10(f)) as nat);
+    let fp = fixed((m as int % pow10(f)) as nat, f);
+    let b = ascii_bytes(canonical(c, f));
+    let ipb = ascii_bytes(ip);
+    let fpb = ascii_bytes(fp);
+    lemma_ascii_digits(ip);
+    lemma_ascii_digits(fp);
+    let sg: Seq<u8> = if c < 0 { seq![0x2du8] } else { Seq::<u8>::empty() };
+    let tail: Seq<u8> = if f > 0 { seq![0x2eu8] + fpb } else { Seq::<u8>::empty() };
+    assert(b =~= sg + (ipb + tail));
+    assert(is_digit(ipb[0]));
+    let s1 = after_sign(b);
+    assert(s1 =~= ipb + tail);
+    let ni = ip.len() as int;
+    assert(s1.take(ni) =~= ipb);
+    lemma_digit_run_exact(s1, ni);
+    let s2 = s1.skip(ni);
+    assert(s2 =~= tail);
+    let s3 = if f > 0 { s2.skip(1) } else { s2 };
+    assert(s3 =~= fpb);
+    let nf = f as int;
+    assert(s3.take(nf) =~= fpb);
+    lemma_digit_run_exact(s3, nf);
+    assert(s3.skip(nf).len() == 0);
+    assert forall|i: int| 0 <= i < (ip + fp).len() implies is_digit_char(#[trigger] (ip + fp)[i]) by {
+        if i < ip.len() { assert((ip + fp)[i] == ip[i]); } else { assert((ip + fp)[i] == fp[i - ip.len()]); }
+    }
+    lemma_ascii_digits(ip + fp);
+    assert(ipb + fpb =~= ascii_bytes(ip + fp));
+    assert(pow10(0) == 1) by { reveal_with_fuel(pow10, 2); }
+    assert(abs_int(c) * 1 == abs_int(c));
+}
+
+/// UTF-8 encodes an ASCII character as the single byte of its code point (definition of UTF-8).  `utf8`
+/// (spec/std_parse.rs) is what `str::as_bytes` returns; it is uninterpreted there, this is the one fact used.
+#[verifier::external_body]
+pub proof fn axiom_utf8_ascii(s: Seq<char>)
+    requires forall|i: int| 0 <= i < s.len() ==> (#[trigger] s[i]) as u32 <= 0x7f
+    ensures utf8(s) == ascii_bytes(s)
+{
+}
+
+/// C07: what `Decimal::from_str` has to return (its contract, C06) for the bytes of the canonical string
+pub proof fn lemma_round_trip_str(c: int, f: nat)
+    requires -max_coeff() <= c <= max_coeff(), f <= 18
+    ensures parse_decimal_spec(utf8(canonical(c, f))) == Some((c, f as int))
+{
+    lemma_canonical_is_literal(c, f);
+    lemma_round_trip(c, f);
+    let m = abs_int(c) as nat;
+    let ip = digits((m as int / pow10(f)) as nat);
+    let fp = fixed((m as int % pow10(f)) as nat, f);
+    let s = canonical(c, f);
+    let sg = if c < 0 { seq!['-'] } else { Seq::<char>::empty() };
+    let tail = if fp.len() > 0 { seq!['.'] + fp } else { Seq::<char>::empty() };
+    assert(s == sg + (ip + tail));
+    assert forall|i: int| 0 <= i < s.len() implies (#[trigger] s[i]) as u32 <= 0x7f by {
+        if i < sg.len() {
+            assert(s[i] == '-');
+        } else if i < sg.len() + ip.len() {
+            assert(s[i] == ip[i - sg.len()]);
+            assert(is_digit_char(ip[i - sg.len()]));
+        } else {
+            let j = i - sg.len() - ip.len();
+            assert(s[i] == tail[j]);
+            if j > 0 { assert(tail[j] == fp[j - 1]); assert(is_digit_char(fp[j - 1])); }
+        }
+    }
+    axiom_utf8_ascii(s);
+}
+'''
+
+
+def build_roundtrip():
+    # C07, second sentence: spec-level lemma only, independent of /repo's text
+    u = Unit('format_roundtrip', specs=['base.rs', 'strings.rs', 'parse.rs', 'std_parse.rs'])
+    u.raw(ROUNDTRIP, 'roundtrip')
+    # serde-as-str half of C07: inspection fact on the feature's expansion (AnchorLost -> exit 2 if it changes)
+    u.raw(_serde_note, 'serde-as-str')
+    return u
+
+
+def _serde_note(mode):
+    import runner
+    serde_delegation_check(runner.load_sources(('fpdec',), ('serde-as-str',))['fpdec'])
+    return ('// serde-as-str (checked on the --features serde-as-str expansion): Serialize = serialize(&Into::<String>::into('
+            'self.clone())), Deserialize = String::deserialize(..).and_then(TryFrom::<String>::try_from), '
+            'TryFrom<String> = Self::from_str(lit.as_str())')
+
+
 def serde_delegation_check(idx):
-    """C07, serde-as-str: `idx` is the item index of the `--features serde-as-str` expansion of fpdec.
-    The derive output must delegate to String::from(Decimal) / TryFrom<String>; raises AnchorLost otherwise."""
-    ser = [k for k in idx if 'Serialize for Decimal' in k and '::' not in k.split('Serialize for Decimal')[1]]
-    de = [k for k in idx if 'Deserialize<' in k and k.endswith('for Decimal')]
+    """C07, serde-as-str: `idx` is the item index of the `--features serde-as-str` expansion of fpdec
+    (runner.load_sources(('fpdec',), ('serde-as-str',))['fpdec']).  Inspection fact, checked mechanically:
+    the derive output (`#[serde(into = "String", try_from = "String")]`) serializes
+    `Into::<String>::into(self.clone())` - i.e. `String::from(Decimal)` via the blanket `Into` - and
+    deserializes a `String` which it hands to `TryFrom<String> for Decimal`, which in turn is
+    `Self::from_str(lit.as_str())`.  serde's derive output and the (de)serializer are trusted dependencies.
+    Raises AnchorLost if the expansion no longer has this shape."""
+    blocks = idx.get('const _')
+    if blocks is None:
+        raise AnchorLost('serde-as-str: no derive output (`const _: () = {..}`) in the expansion')
+    blocks = blocks if isinstance(blocks, list) else [blocks]
+    texts = [rsx.ws_norm(b.text) for b in blocks]
+    ser = [t for t in texts if re.search(r'impl _serde::Serialize for Decimal\b', t)]
+    de = [t for t in texts if re.search(r"impl<'de> _serde::Deserialize<'de> for Decimal\b", t)]
     if len(ser) != 1 or len(de) != 1:
-        raise AnchorLost('serde-as-str: Serialize/Deserialize impls for Decimal not found (%s / %s)' % (ser, de))
-    st = idx[ser[0]].text
-    dt = idx[de[0]].text
-    import re
-    if not re.search(r'_serde::Serialize::serialize\(\s*&_serde::__private\d*::Into::<String>::into\(\s*_serde::__private\d*::Clone::clone\(self\)\)', st):
-        raise AnchorLost('serde-as-str: Serialize for Decimal does not serialize Into::<String>::into(self.clone())')
-    if not re.search(r'<String as _serde::Deserialize>::deserialize\(__deserializer\)', dt) or \
-            not re.search(r'<Self as _serde::__private\d*::TryFrom<String>>::try_from\(', dt):
-        raise AnchorLost('serde-as-str: Deserialize for Decimal does not go through String and TryFrom<String>')
-    return {'serialize': ser[0], 'deserialize': de[0]}
+        raise AnchorLost('serde-as-str: Serialize / Deserialize impls for Decimal not found (%d / %d)' % (len(ser), len(de)))
+    if not re.search(r'_serde::Serialize::serialize\(\s*&\s*_serde::__private\d*::Into::<String>::into\(\s*'
+                     r'_serde::__private\d*::Clone::clone\(self\)\s*\)\s*,\s*__serializer\s*\)', ser[0]):
+        raise AnchorLost('serde-as-str: Serialize for Decimal is not serialize(&Into::<String>::into(self.clone()), ..)')
+    if not re.search(r'Result::and_then\(\s*<String as _serde::Deserialize>::deserialize\(__deserializer\)\s*,\s*'
+                     r'\|v\|\s*_serde::__private\d*::TryFrom::try_from\(v\)\.map_err\(_serde::de::Error::custom\)\s*\)', de[0]):
+        raise AnchorLost('serde-as-str: Deserialize for Decimal is not String::deserialize(..).and_then(TryFrom::try_from)')
+    for k in ('format::impl From<Decimal> for String::from', 'from_str::impl TryFrom<String> for Decimal::try_from'):
+        if k not in idx or isinstance(idx[k], list):
+            raise AnchorLost('serde-as-str: %s missing or ambiguous' % k)
+    if len([k for k in idx if re.search(r'impl (<.*> )?(Into<String> for Decimal|From<Decimal> for String)$', k)]) != 1:
+        raise AnchorLost('serde-as-str: more than one conversion Decimal -> String')
+    tf = rsx.ws_norm(vgen.strip_attrs_and_comments(idx['from_str::impl TryFrom<String> for Decimal::try_from'].text))
+    if not re.search(r'\{\s*Self::from_str\(lit\.as_str\(\)\)\s*\}$', tf):
+        raise AnchorLost('serde-as-str: TryFrom<String> for Decimal is not Self::from_str(lit.as_str())')
+    return True
